@@ -9,7 +9,11 @@ Rom(inp, out, plus) == [inp |-> inp, out |-> out, plus |-> plus]
 Pool == << Rom(<<Ipa(A)>>, 1, FALSE), Rom(<<Ipa(T), Ipa(A)>>, 2, FALSE), Rom(<<Mx(<<FPos(F_SYLL)>>)>>, 3, TRUE), Rom(<<Mx(<<FNeg(F_SYLL)>>)>>, 1, FALSE),
            Rom(<<Mx(<<<<"f", 17, FALSE>>>>)>>, 2, FALSE),     \* [-anterior]: a feature of the coronal node, absent on vowels and on non-coronals
            Rom(<<Mx(<<<<"f", 17, TRUE>>>>)>>, 3, TRUE), Rom(<<Ipa(SS)>>, 0, FALSE), Rom(<<Ipa(I), Grp(1)>>, 2, TRUE),
-           Rom(<<SB>>, 0, FALSE), Rom(<<SB>>, 3, FALSE) >>
+           Rom(<<SB>>, 0, FALSE), Rom(<<SB>>, 3, FALSE),
+           \* stress modifiers on groups, literals and matrices (tested on the segment's syllable)
+           Rom(<<WithMods(Grp(9), <<<<"s", "sec.stress", TRUE>>>>)>>, 2, TRUE), Rom(<<WithMods(Grp(9), <<<<"s", "stress", TRUE>>, <<"s", "sec.stress", FALSE>>>>)>>, 1, FALSE),
+           Rom(<<WithMods(Grp(1), <<<<"s", "sec.stress", FALSE>>>>)>>, 3, TRUE), Rom(<<WithMods(Ipa(A), <<<<"s", "stress", FALSE>>>>)>>, 2, FALSE),
+           Rom(<<Mx(<<FPos(F_SYLL), <<"s", "sec.stress", TRUE>>>>)>>, 1, TRUE), Rom(<<WithMods(Grp(1), <<<<"s", "stress", TRUE>>>>), Grp(9)>>, 2, FALSE) >>
 NP == Len(Pool)
 RECURSIVE SylOf(_, _)
 SylOf(bs, i) == IF i = 1 THEN 1 ELSE SylOf(bs, i - 1) + (IF bs[i - 1] THEN 1 ELSE 0)
